@@ -122,6 +122,12 @@ DirectPerts(v) ==
               Pert("sack_left-300", "sack", [sack_left |-> -300], NoMods),
               Pert("sack_sport+1", "sack", [sport |-> 1], NoMods), Pert("sack_dport+1", "sack", [dport |-> 1], NoMods),
               Pert("sack_from_foreign", "sack", NoMods, [from |-> Foreign(v, 77)]) }
+      \* UDP: an unreachable from a box that is not the target (a rejecting firewall, a router without a route) is a genuine reply
+      \* of THAT box: the hop it creates must carry its address
+      [] v \in {"udp4", "udp6"} ->
+            { Pert("du_port_from_middlebox", "du_port", NoMods, [from |-> Foreign(v, 77)]),
+              Pert("du_host_from_router", "du_host", NoMods, [from |-> Foreign(v, 77)]),
+              Pert("du_admin_from_firewall", "du_admin", NoMods, [from |-> Foreign(v, 77)]) }
       [] OTHER -> {}
 
 \* a C01 scenario: routers at 1,2 answer, TTL 3 silent, destination at 4 (or never); the packet under test is about TTL 3
